@@ -454,23 +454,31 @@ def check_traces(rep, items, clause, swallow_cast=False):
         raise tlc.MachineryError('harness error while recording engine traces: ' + errs[0])
     # the binding binds: a recorded execution with one event changed, and one with one delivered row changed, must be rejected
     import copy
-    probe = next((t for t in traces if t['fin']['outcome'] == 'done' and any(e[0] == 'sRow' for e in t['ev']) and t['fin']['out'] and t['fin']['out'][-1]), None)
+    cands = [i for i, t in enumerate(traces) if t['fin']['outcome'] == 'done' and any(e[0] == 'sRow' for e in t['ev']) and t['fin']['out'] and t['fin']['out'][-1]][:4]
     extra = []
-    if probe is not None:
-        c1 = copy.deepcopy(probe)
-        k = max(i for i, e in enumerate(c1['ev']) if e[0] == 'sRow')
+    for i in cands:
+        c1 = copy.deepcopy(traces[i])
+        k = max(j for j, e in enumerate(c1['ev']) if e[0] == 'sRow')
         c1['ev'][k][3]['v'] += 1
-        c2 = copy.deepcopy(probe)
+        c2 = copy.deepcopy(traces[i])
         c2['fin']['out'][-1][-1]['v'] += 1
-        extra = [c1, c2]
+        extra += [c1, c2]
     res, verdicts = validate(traces + extra, swallow_cast=swallow_cast)
     if extra:
-        v1, v2 = verdicts[-2], verdicts[-1]
-        verdicts = verdicts[:-2]
-        if v1['events_ok'] or v2['C01'] or v2['final_eq']:
-            raise tlc.MachineryError('EngineTrace accepted a corrupted trace (event changed: events_ok=%s; result changed: C01=%s): the trace spec does not bind'
-                                     % (v1['events_ok'], v2['C01']))
-        rep.notes['trace_binding_selftest'] = 'a trace with one sRow event changed is rejected at event %d/%d; a trace with one delivered row changed fails C01' % (v1['matched'], v1['total'])
+        ev = verdicts[len(traces):]
+        verdicts = verdicts[:len(traces)]
+        tested = 0
+        for n, i in enumerate(cands):
+            v0, v1, v2 = verdicts[i], ev[2 * n], ev[2 * n + 1]
+            if not (v0['events_ok'] and v0['C01'] and v0['final_eq']):
+                continue            # the probe itself is not a conforming execution (the library under test is broken): it proves nothing either way
+            tested += 1
+            if v1['events_ok'] or v2['C01'] or v2['final_eq']:
+                raise tlc.MachineryError('EngineTrace accepted a corrupted trace (event changed: events_ok=%s; result changed: C01=%s): the trace spec does not bind'
+                                         % (v1['events_ok'], v2['C01']))
+            rep.notes['trace_binding_selftest'] = 'a trace with one sRow event changed is rejected at event %d/%d; a trace with one delivered row changed fails C01' % (v1['matched'], v1['total'])
+        if not tested:
+            rep.notes['trace_binding_selftest'] = 'skipped: none of the probe executions conforms'
     rep.add_tlc(res, 'EngineTrace: %d recorded executions' % len(traces))
     for tr, v in zip(traces, verdicts):
         rep.count(1, traces=1)
